@@ -52,7 +52,7 @@ def build(ctx):
                    ('R7', r'other\.pos_\.load\(std::memory_order_(\w+)\)', r'other->pos_'),
                    ('R7', r'other\.allocatedSize_\.load\(std::memory_order_(\w+)\)', r'other->allocatedSize_'),
                    ('R7', r'T\*\*\s+otherBuffers\s*=\s*other\.buffers_\.load\(std::memory_order_acquire\);', 'Index otherBuffers = other->buffers_table;', 1),
-                   ('R12', r'T\*\*\s+newBuffers\s*=\s*new\s+T\*\[buffersSize_\];', 'g_new_table_len = self->buffersSize_; Index newBuffers = 1;', 1),
+                   ('R12', r'T\*\*\s+newBuffers\s*=\s*new\s+T\*\[(\w+)\];', r'g_new_table_len = self->\1; Index newBuffers = 1;   /* the table has as many entries as the code asks operator new[] for */', 1),
                    ('R19', r'void\*\s+ptr\s*=\s*detail::alignedMalloc\(kBufferSize \* sizeof\(T\), alignment\);', 'Index ptr = G_alignedMalloc_block();', 1),
                    ('R19', r'std::memcpy\(ptr, otherBuffers\[i\], kBufferSize \* sizeof\(T\)\);', 'G_memcpy_block(ptr, G_read_table(other, otherBuffers, i));', 1),
                    ('R19', r'newBuffers\[i\]\s*=\s*static_cast<T\*>\(ptr\);', '__CPROVER_assert(i < g_new_table_len, "write inside the freshly allocated pointer table"); g_new_table_written++;', 1),
@@ -61,7 +61,7 @@ def build(ctx):
                    ('R11', r'(?<![\w.>])(kLog2BuffSize|kBufferSize|kMask|pos_|allocatedSize_|buffersSize_|buffersPos_)(?=\s*=\s)', r'self->\1'),
                    ('R11', r'(?<![\w.>])(buffersSize_|buffersPos_)\b', r'self->\1'),
                    ('LC', r'(for\s*\(Index i = 0; i < self->buffersSize_; \+\+i\))\s*\{|(for\s*\(Index i = 0; i < self->buffersPos_; \+\+i\))\s*\{',
-                    r'\1\2 __CPROVER_assigns(i, g_next_block_id, g_new_table_written) __CPROVER_loop_invariant(i <= NB && g_new_table_written == i && g_new_table_len == self->buffersSize_) __CPROVER_decreases(NB - i) {', 1)])
+                    r'\1\2 __CPROVER_assigns(i, g_next_block_id, g_new_table_written) __CPROVER_loop_invariant(i <= NB && g_new_table_written == i && g_new_table_len == __CPROVER_loop_entry(g_new_table_len)) __CPROVER_decreases(NB - i) {', 1)])
     p = r.function(F, r'Index\s+getBufferSize\s*\(\s*const\s+Index\s+index\s*\)\s*const', within=CLS)
     ctx.emit('Arena_getBufferSize.body.inc', p, must_fire=['R7', 'R6'],
              subs=[('R17', r'numBuffers\(\)', 'self->buffersPos_', 1),
